@@ -546,7 +546,15 @@ class Type4ATag(Type4Tag):
         rats_res = self.clf.exchange(rats_cmd, timeout=0.03)
         log.debug("rcvd RATS response: {0}".format(hexlify(rats_res).decode()))
 
-        fsci, fwti = rats_res[1] & 0x0F, rats_res[3] >> 4
+        # The format byte T0 tells which interface bytes follow. TB(1)
+        # is preceded by TA(1) only if that is present. Without T0 or
+        # TB(1) the default values FSCI = 2 and FWI = 4 apply.
+        fsci, fwti = 2, 4
+        if len(rats_res) > 1:
+            fsci = rats_res[1] & 0x0F
+            tb_index = 3 if rats_res[1] & 0x10 else 2
+            if rats_res[1] & 0x20 and len(rats_res) > tb_index:
+                fwti = rats_res[tb_index] >> 4
         if fsci > 8:
             log.warning("FSCI with RFU value in RATS_RES")
             fsci = 8
